@@ -357,9 +357,35 @@ def r4_5(ctx):
     escape_tables.check_decoder_tables(ctx)
 
 
+ENGINE_OPTIONS = {"unicode", "case_insensitive", "multi_line", "dot_matches_new_line", "swap_greed", "ignore_whitespace", "crlf", "octal", "utf8", "line_terminator"}
+
+
+def r4_6(ctx):
+    """the documented meaning of a pattern (`?`/`.` = one *character*, case sensitive, `$` = end of text ..) is that of the regex crate's
+    defaults: every matcher in src/rules is built with Regex::new, or with a builder that sets no option which changes matching"""
+    prog = ctx.prog
+    n = 0
+    for b in prog.bodies:
+        if b.promoted is not None or "::tests" in b.npath or not b.file.startswith("src/rules/"):
+            continue
+        for bb, t in b.calls():
+            m = method_name(callee_name(t, resolved=False) or "")
+            last = m.split("::")[-1]
+            if m in ("Regex::new",) or m.endswith("RegexBuilder::new") or m.endswith("RegexBuilder::build") or m == "RegexSet::new":
+                n += 1
+                ctx.ok("regex-site:%s#%d" % (b.npath.split("::")[-1] if not b.npath.startswith("<") else b.name, n), b.loc(bb), "%s (engine defaults unless an option is set)" % m, obligation=False)
+            if "RegexBuilder" in m and last in ENGINE_OPTIONS:
+                n += 1
+                ctx.bad("regex-option:%s:%s" % (b.npath.split("::")[-1] if not b.npath.startswith("<") else b.name, last), b.loc(bb),
+                        "%s sets the engine option `%s`: the pattern no longer means what the documentation of the rule says (e.g. with unicode(false) "
+                        "`?` / `.` match one byte, not one character, so `caf? (glob)` stops matching `caf\u00e9`)" % (b.npath, last))
+    ctx.check(n >= 3, "regex-sites", "-", "%d regex construction sites in src/rules analysed" % n, "only %d regex construction sites found in src/rules" % n)
+
+
 def run(ctx):
     ctx.run_rule("R4.1", "RegexRule::make anchors a *group* around the cleaned expression (`^(?:..)$`); the cram glob regex is anchored too [E-FLOW]", r4_1, floor=3)
     ctx.run_rule("R4.2", "per Rule impl the line reaches the whole-line comparator only through the documented transforms [E-FLOW]", r4_2, floor=8)
     ctx.run_rule("R4.3", "registry: first registered name == kind(); names == documented BNF; cram overrides exactly glob/gl [E-TABLE]", r4_3, floor=12)
     ctx.run_rule("R4.4", "glob_to_regex_string emits raw regex syntax only for `?`->`.`, `*`->`.*` and the escaped pairs; everything else via regex::escape [E-TABLE]", r4_4, floor=5)
+    ctx.run_rule("R4.6", "every matcher in src/rules is built with the regex crate's default semantics (no unicode(false), case_insensitive, multi_line .. on a builder) [E-SITE]", r4_6, floor=3)
     ctx.run_rule("R4.5", "escape decoder tables (letter escapes, \\xHH radix 16 x2 digits, \\0OO radix 8, \\\\) [E-TABLE]", r4_5, floor=6)
